@@ -14,7 +14,7 @@ CHECKS = {
    text="Every encode/encode_partial body emitted for the corpus is abstractly interpreted for ALL values of the generated "
         "types: narrowing casts, put_uint widths, shifts and ORs must be loss-free under dominating guards, nothing may "
         "trap, and the byte count of the Ok path equals encoded_len() as polynomials.", ref="7/C05"),
- "C15": dict(level="translation_validation", technique="interval-set semantics of generated match arms vs reference enum table",
+ "C15": dict(level="translation_validation", technique="interval-set semantics of generated match arms (Rust) and from_int handlers (Python) vs reference enum table",
    text="Per enum the generated TryFrom/From conversion functions are computed as functions on the whole backing-type "
         "domain (first-match interval sweep) and compared segment by segment with the reference model: exhaustive over "
         "all integers per enum.", ref="7/C15"),
@@ -72,6 +72,17 @@ CHECKS = {
         "its literals (values and payload lengths) and compared with the reference specialisation computed from the "
         "description; decode_partial checks each local constraint with the right value before parsing; child-to-parent "
         "conversions pin constrained fields to their values and copy the rest.", ref="7/C06"),
+ "C13": dict(level="translation_validation", technique="abstract interpretation of the emitted Python (ast) + layout comparison with the reference model",
+   text="Every generated Python parse is evaluated symbolically for all inputs (never run): span[k] needs a proved length, "
+        "constant-bound slices feeding from_bytes/parse_all/advances need the bytes, size modifiers cannot go negative, every "
+        "raise builds a DecodeError subclass, fields[k] read-after-write, kwargs subset of dataclass fields, loop progress; "
+        "parser and serializer layouts equal the reference in both byte orders; inherited constraints are checked and pinned; "
+        "size == bytes written for roots.", ref="7/C13"),
+ "C07": dict(level="translation_validation", technique="pairwise comparison of layouts extracted from the Rust and Python backends; sentinel agreement rule over all backend sources",
+   text="For every corpus declaration supported by both backends the parser layouts and the serializer layouts extracted "
+        "from emitted Rust and emitted Python are compared directly (not via the reference); every comparison of a size "
+        "field's target in any backend (incl. Java) uses a sentinel the parser produces. C++/Java layouts are not extracted.",
+   ref="7/C07"),
 }
 NOT_APPLICABLE = {
  "C19": "Java backend: no Java front-end to the abstract interpreter can be built and validated in this sandbox "
